@@ -159,15 +159,18 @@ CHECKS = {
         'repetition count follows from C01 + REPEAT semantics + the token-level tie, it is not a single end-to-end theorem.',
    design='5/C08'),
  'C14': dict(
-   technique='Coq proof (strokes of the modelled start/linear/end sequences = documented figures; induction over ticks, passes, vertices, copies) + stroke-level differential on Marker.points',
+   technique='Coq proof (strokes of the modelled start/linear/end sequences = documented figures; induction over ticks, passes, vertices, copies) + source translator (the five Marker methods read as sequences of start / linear / end calls; cross and ruler proved equal to the model) + stroke-level differential on Marker.points',
    text='Props/C14.v: for all positions, lengths, tick lists, extents, vertex lists and shifts the open-shutter strokes of the '
         'modelled cross / ruler / meander / ablation / box are exactly the documented figures (two centred arms; one stroke per '
         'distinct tick in increasing y from x_init to the absolute tick x; one stroke of floor(ext/delta)+1 alternating lines; '
         'vertices in order plus four displaced copies; closed rectangle), np.unique is modelled by a proved sort_uniq. Tie to '
         '/repo: every primitive is called with generated arguments (2-D and 3-D positions, unsorted repeated ticks, both '
         'orientations and directions); femto\'s recorded trajectory is compared point by point with the model and the strokes '
-        'of its raw trajectory and of its points matrix with the model\'s strokes.',
-   note='Trusted: Coq kernel; exact-rational model vs float32 storage compared within 1e-5*(1+|v|); meander pass counts are '
+        'of its raw trajectory and of its points matrix with the model\'s strokes. SOURCE TIE: Marker.cross / ruler / meander / '
+        'ablation / box are re-translated from /repo on every run (SrcMk.v) over hand-given start / linear / end (coq/tie/MkState.v); '
+        'coq/tie/EquivMk.v proves cross (2-D, 3-D, refusal) and ruler to record exactly the model\'s trajectory; the other three must '
+        'stay inside the translated subset and type-check.',
+   note='Trusted: Coq kernel; coq/tie/MkState.v (LaserPath.start / linear / end and the numpy calls of marker.py given by hand); exact-rational model vs float32 storage compared within 1e-5*(1+|v|); meander pass counts are '
         'generated away from integer quotients.',
    design='5/C14'),
  'C13': dict(
@@ -242,14 +245,16 @@ CHECKS = {
         'one-last-digit tolerance; float32 shift subtraction modelled exactly (rnd32).',
    design='5/C01'),
  'C11': dict(
-   technique='Coq proof (induction over lists, any type with decidable equality) + differential correspondence model-vs-femto via vm_compute',
+   technique='Coq proof (induction over lists, any type with decidable equality) + source translator (unique_filter, split_mask and the LaserPath views read operation by operation over a numpy array semantics) with proved equivalence to the model + differential correspondence model-vs-femto via vm_compute',
    text='Theorems in coq/theories/Props/C11.v prove, for every list over every type with decidable equality, that the modelled '
         'unique_filter keeps exactly the first row and the rows differing from their predecessor (order, no adjacent equals, '
         'idempotence, first/last, projections) and that the modelled split_mask returns the maximal runs of selected elements. '
         'The model is tied to /repo by running femto (LaserPath.points/x/y/z/last*/path3d, helpers.split_mask) and the Gallina '
-        'model on the same float32 matrices and masks on every run, compared bit for bit.',
+        'model on the same float32 matrices and masks on every run, compared bit for bit. SOURCE TIE: helpers.unique_filter, '
+        'helpers.split_mask and LaserPath.points / x / y / z / lastx / lasty / lastz / lastpt / path3d / path are re-translated from '
+        '/repo on every run (SrcUf.v) and coq/tie/EquivUf.v proves them to be dedup / runs and their projections (17 theorems, closed).',
    note='Trusted: Coq kernel; harness/c11.py (float32 -> equality codes, NaN fresh codes, bit patterns); float clause '
-        '(a-b != 0 iff a != b for finite binary32) validated not proved. numpy itself is not modelled.',
+        '(a-b != 0 iff a != b for finite binary32) validated not proved. numpy is read through the array semantics of coq/tie/NpState.v (trusted: that it says what numpy does on the shapes that occur).',
    design='5/C11'),
 }
 
